@@ -33,6 +33,13 @@ pub assume_specification<'a, 'b, T: ?Sized + ToOwned> [<std::borrow::Cow<'a, T> 
 pub assume_specification<'a, 'b, T: ?Sized + ToOwned> [<std::borrow::Cow<'a, T> as std::ops::Deref>::deref] (c: &'b std::borrow::Cow<'a, T>) -> (r: &'b T)
     ensures r == cow_ref(c);
 
+// rule E11: slice patterns.  `[a]` / `[a, b]` match exactly the slices of length 1 / 2 and bind references to the elements (Rust
+// reference, slice patterns); the helper's body is proved against that reading
+pub enum SV<'x, X> { S0, S1(&'x X), S2(&'x X, &'x X), More }
+pub fn vf_slice_view<'x, X>(v: &'x Vec<X>) -> (r: SV<'x, X>)
+    ensures v@.len() == 0 ==> r is S0, v@.len() == 1 ==> r == SV::S1(&v@[0]), v@.len() == 2 ==> r == SV::S2(&v@[0], &v@[1]), v@.len() > 2 ==> r is More,
+{ if v.len() == 0 { SV::S0 } else if v.len() == 1 { SV::S1(&v[0]) } else if v.len() == 2 { SV::S2(&v[0], &v[1]) } else { SV::More } }
+
 // R1: X.into_iter().chain(Y).collect()
 #[verifier::external_body]
 pub fn vf_chain_collect<A>(x: Vec<A>, y: Vec<A>) -> (r: Vec<A>)
